@@ -302,6 +302,13 @@ def discriminating_path(
             # keep track of explored_nodes
             explored_nodes.add(next_node)
 
+            # 'this_node' has to be a collider on the path, so the edge to 'next_node' needs
+            # an arrowhead at 'this_node' (possible parents include this_node o-o next_node)
+            if not graph.has_edge(
+                next_node, this_node, graph.directed_edge_name
+            ) and not graph.has_edge(this_node, next_node, graph.bidirected_edge_name):
+                continue
+
             # Check if 'next_node' is now the end of the discriminating path.
             # Note we now have 3 edges in the path by construction.
             if c not in graph.neighbors(next_node) and next_node != c:
